@@ -280,6 +280,21 @@ fn tree_wf(doc: &Document) -> bool {
     walk(doc, root, None, &mut BTreeSet::new(), 0).is_some()
 }
 
+/// what the pages show before and after a call that may add objects.  On a page tree with a cycle (a set_object can make
+/// one) the LIST page_iter gives is cut off by the number of objects, so a call that adds an object lengthens it: when either
+/// list repeats an id, each page is looked at once (first occurrence); otherwise the lists are compared as they are.
+fn page_views(before: &Document, after: &Document) -> (Vec<(ObjectId, Option<Vec<u8>>)>, Vec<(ObjectId, Option<Vec<u8>>)>) {
+    let once = |d: &Document| -> Vec<(ObjectId, Option<Vec<u8>>)> {
+        let mut seen = BTreeSet::new();
+        page_contents(d).into_iter().filter(|(p, _)| seen.insert(*p)).collect()
+    };
+    if tree_ids_once(before) && tree_ids_once(after) {
+        (page_contents(before), page_contents(after))
+    } else {
+        (once(before), once(after))
+    }
+}
+
 /// page_iter lists no id twice (it does when the page tree has a cycle or a shared node)
 fn tree_ids_once(doc: &Document) -> bool {
     let mut seen = BTreeSet::new();
@@ -529,7 +544,8 @@ fn main() {
                                     _ => ck.req(n, false, || format!("build_outline created {:?}, not a dictionary", k)),
                                 }
                             }
-                            ck.req(n, page_contents(&before) == page_contents(&doc), || "build_outline changed what a page shows".into());
+                            let (v0, v1) = page_views(&before, &doc);
+                            ck.req(n, v0 == v1, || "build_outline changed what a page shows".into());
                         }
                     }
                 }
@@ -756,8 +772,7 @@ fn main() {
                 Op::Cpc(p, c) => {
                     ck.req(n, before.trailer == doc.trailer, || "change_page_content changed the trailer".into());
                     if out.is_id("ok") {
-                        let pc0 = page_contents(&before);
-                        let pc1 = page_contents(&doc);
+                        let (pc0, pc1) = page_views(&before, &doc);
                         let fresh_clash = doc.max_id != before.max_id && mentioned(&before, (doc.max_id, 0));
                         if pc0.iter().any(|(q, _)| q == p) && !fresh_clash {
                             ck.req(n, pc0.len() == pc1.len() && pc0.iter().zip(pc1.iter()).all(|((q0, c0), (q1, c1))| q0 == q1 && if target(&before, *q0) == target(&before, *p) { c1.as_deref() == Some(c.as_slice()) } else { c0 == c1 }),
@@ -775,8 +790,7 @@ fn main() {
                     };
                     ck.req(n, before.trailer == doc.trailer, || "add_page_contents changed the trailer".into());
                     if out.is_id("ok") {
-                        let pc0 = page_contents(&before);
-                        let pc1 = page_contents(&doc);
+                        let (pc0, pc1) = page_views(&before, &doc);
                         let fresh_clash = mentioned(&before, (doc.max_id, 0));
                         if pc0.iter().any(|(q, _)| q == p) && !fresh_clash {
                             ck.req(n, pc0.len() == pc1.len() && pc0.iter().zip(pc1.iter()).all(|((q0, c0), (q1, c1))| q0 == q1 && if target(&before, *q0) == target(&before, *p) {
@@ -854,13 +868,8 @@ fn main() {
             if !panicked && matches!(op, Op::New | Op::Add(_) | Op::Prune | Op::RmAnnot(_)) {
                 let clash = matches!(op, Op::Add(_)) && mentioned(&before, (doc.max_id, 0));
                 if !clash {
-                    // on a page tree with a cycle (a set_object can make one) the LIST page_iter gives is cut off by the number of
-                    // objects, so add_object lengthens it: there, each page is looked at once (first occurrence)
-                    let once = |d: &Document| -> Vec<(ObjectId, Option<Vec<u8>>)> {
-                        let mut seen = BTreeSet::new();
-                        page_contents(d).into_iter().filter(|(p, _)| seen.insert(*p)).collect()
-                    };
-                    let same = if tree_ids_once(&before) && tree_ids_once(&doc) { page_contents(&before) == page_contents(&doc) } else { once(&before) == once(&doc) };
+                    let (v0, v1) = page_views(&before, &doc);
+                    let same = v0 == v1;
                     ck.req(n, same,
                            || "an operation that does not edit content changed what a page shows".into());
                 }
